@@ -3,12 +3,17 @@ package main
 import (
 	"bytes"
 	"fmt"
+	"regexp"
+	"strconv"
+	"strings"
+
+	"github.com/jsightapi/jsight-api-go-library/directive"
 )
 
 func init() {
 	props["C05"] = &propCheck{
-		lean: []string{"JSight.Props.C05"},
-		exes: []string{"jsight-scan"},
+		lean: []string{"JSight.Props.C05", "JSight.Props.C05_Parens"},
+		exes: []string{"jsight-scan", "jsight-ctx"},
 		run:  runC05,
 		rule: "generated documents, each rendered in a plain style and in several random styles (line/block comments and blank lines at directive boundaries, indentation incl. tabs, trailing blanks, LF/CRLF/CR, optional quotes, optional parentheses, // vs /* */ annotations); non-trivial = the rewrite changes the bytes; distinct = distinct pair of renderings",
 		assume: []string{
@@ -50,6 +55,121 @@ func runC05(ctx *Ctx) {
 		}
 	}
 	ctx.Cov.Component("plain rendering vs rewritten renderings (verdict and JSON must be identical)", ctx.Cov.Evaluations, len(ctx.Violations), "")
+	parensSearch(ctx, r)
+}
+
+var reNum = regexp.MustCompile(`\d+`)
+
+// parensSearch: "putting a directive's children in explicit parentheses when they would nest there anyway" on
+// directive sequences (macros included): the model computes where the ")" goes (C05P.markForest / insertParens,
+// proved to resolve to the same forest); the REAL scan phase and paste phase must give the same forest for the
+// rewritten sequence.
+func parensSearch(ctx *Ctx, r *Rng) {
+	m, err := ctx.Model("jsight-ctx")
+	if err != nil {
+		ctx.Break("parentheses: model not available: " + err.Error())
+		return
+	}
+	n := ctx.Budget(4000, 200000)
+	type cs struct {
+		toks []CTok
+		mark int
+		run  ctxRun
+	}
+	var cases []cs
+	var reqs []string
+	// all short sequences over the shapes that matter for nesting (macro, URL, method with and without a path,
+	// response, type; with and without parentheses), then longer plausible ones
+	small := []CTok{{Kind: int(directive.Macro), Name: 1}, {Kind: int(directive.Macro), Name: 1, Explicit: true}, {Kind: int(directive.URL), HasPath: true},
+		{Kind: int(directive.URL), HasPath: true, Explicit: true}, {Kind: int(directive.Get)}, {Kind: int(directive.Get), HasPath: true},
+		{Kind: int(directive.Post), HasPath: true}, {Kind: int(directive.HTTPResponseCode)}, {Kind: int(directive.Type)}, {Close: true}}
+	var seqs [][]CTok
+	enumCToks(small, ctx.Len(4, 5), func(t []CTok) { seqs = append(seqs, append([]CTok(nil), t...)) })
+	for i := 0; i < n; i++ {
+		seqs = append(seqs, plausibleCToks(r, 3+r.Intn(10), r.Bool()))
+	}
+	for _, tt := range seqs {
+		var cands []int
+		for k, t := range tt {
+			if !t.Close && !t.Explicit && canExplicit(directive.Enumeration(t.Kind)) {
+				cands = append(cands, k)
+			}
+		}
+		if len(cands) == 0 {
+			continue
+		}
+		run := runCtx(tt)
+		if run.Other || run.Panic != "" || !strings.HasPrefix(run.Scan, "ok") {
+			ctx.Cov.Hit("parentheses: sequence not accepted by the scan phase")
+			continue
+		}
+		mk := cands[r.Intn(len(cands))]
+		cases = append(cases, cs{tt, mk, run})
+		reqs = append(reqs, fmt.Sprintf("parens %d %s", mk, ctoksProto(tt)))
+	}
+	outs, err := m.Batch(reqs)
+	if err != nil {
+		ctx.Break("parentheses: " + err.Error())
+		return
+	}
+	bad, dis := 0, 0
+	for k, out := range outs {
+		c := cases[k]
+		if !strings.HasPrefix(out, "ok") {
+			// the model does not accept a sequence the implementation accepts: the tree correspondence (C06) reports it
+			ctx.Cov.Hit("parentheses: model refuses the sequence")
+			dis++
+			continue
+		}
+		var marked []CTok
+		var orig []int // marked index -> original index
+		for _, f := range strings.Fields(out)[1:] {
+			if f == ")" {
+				marked = append(marked, CTok{Close: true})
+				orig = append(orig, -1)
+				continue
+			}
+			id, _ := strconv.Atoi(f)
+			t := c.toks[id]
+			if id == c.mark {
+				t.Explicit = true
+			}
+			marked = append(marked, t)
+			orig = append(orig, id)
+		}
+		run2 := runCtx(marked)
+		back := func(s string) string {
+			return reNum.ReplaceAllStringFunc(s, func(x string) string {
+				v, _ := strconv.Atoi(x)
+				if v < len(orig) && orig[v] >= 0 {
+					return strconv.Itoa(orig[v])
+				}
+				return "?" + x
+			})
+		}
+		ctx.Cov.Count([]byte(reqs[k]), len(c.toks) >= 4)
+		ctx.Cov.Hit("parentheses: rewritten sequences")
+		scan2, paste2 := run2.Scan, run2.Paste
+		if strings.HasPrefix(scan2, "ok") {
+			scan2 = back(scan2)
+		}
+		if strings.HasPrefix(paste2, "ok") {
+			paste2 = back(paste2)
+		}
+		pasteSame := paste2 == c.run.Paste || (!strings.HasPrefix(paste2, "ok") && !strings.HasPrefix(c.run.Paste, "ok"))
+		if run2.Panic != "" || scan2 != c.run.Scan || !pasteSame {
+			bad++
+			content, _ := renderCToks(marked)
+			content0, _ := renderCToks(c.toks)
+			in := projectInput(SingleFile(content))
+			in["op"] = "parens"
+			in["original"] = string(content0)
+			ctx.Violate(Violation{Kind: "wrong-output", Site: "core.processContext",
+				What:     fmt.Sprintf("putting the children of directive %d in parentheses changes the tree: %s / %s, without them %s / %s", c.mark, scan2, paste2, c.run.Scan, c.run.Paste),
+				Input:    in, Observed: scan2 + " | " + paste2, Expected: c.run.Scan + " | " + c.run.Paste, Signature: "parens-change-tree"})
+		}
+	}
+	ctx.Cov.Component("a directive's children put in parentheses (position of the \")\" computed by the model): real scan and paste phases give the same forest", len(outs), bad, fmt.Sprintf("%d sequences refused by the model", dis))
 }
 
 func firstDiff(a, b []byte) string {
